@@ -398,35 +398,57 @@ func runC05(r *Run) {
 							}
 							return true
 						})
+						// the victim (a *Line) must be written back: some call receives BOTH ev.Boundary[0] (possibly
+						// converted) as the address and ev.Data as the bytes
 						mode := "victim-discarded"
 						if ev != nil {
 							mode = "victim-not-written"
+							isField := func(e ast.Expr, field string) bool {
+								e = ast.Unparen(stripConv(info, e))
+								if ix, ok := e.(*ast.IndexExpr); ok && field == "Boundary" {
+									if c0, ok := constInt64(info.Types[ix.Index]); !ok || c0 != 0 {
+										return false
+									}
+									e = ast.Unparen(ix.X)
+								} else if field == "Boundary" {
+									return false
+								}
+								sel, ok := e.(*ast.SelectorExpr)
+								if !ok || sel.Sel.Name != field {
+									return false
+								}
+								id, ok := ast.Unparen(sel.X).(*ast.Ident)
+								return ok && info.Uses[id] == ev
+							}
 							ast.Inspect(fd.Body, func(k ast.Node) bool {
 								c2, ok := k.(*ast.CallExpr)
 								if !ok || c2 == call {
 									return true
 								}
-								if fid, ok := c2.Fun.(*ast.Ident); ok {
-									if _, isB := info.Uses[fid].(*types.Builtin); isB {
-										return true
+								hasData, hasBase, hasNewBase := false, false, false
+								for _, a := range c2.Args {
+									if isField(a, "Data") {
+										hasData = true
+									}
+									if isField(a, "Boundary") {
+										hasBase = true
+									}
+									if types.ExprString(ast.Unparen(stripConv(info, a))) == types.ExprString(ast.Unparen(stripConv(info, call.Args[0]))) {
+										hasNewBase = true
 									}
 								}
-								for ai, a := range c2.Args {
-									if id, ok := ast.Unparen(a).(*ast.Ident); ok && info.Uses[id] == ev {
-										// written somewhere: at which address?
-										mode = "victim-written-at-unknown-address"
-										for aj, b := range c2.Args {
-											if aj != ai && types.ExprString(ast.Unparen(stripConv(info, b))) == types.ExprString(ast.Unparen(stripConv(info, call.Args[0]))) {
-												mode = "victim-written-at-the-inserted-line's-address"
-											}
-										}
-									}
+								switch {
+								case hasData && hasBase:
+									mode = "victim-written-at-its-own-base"
+								case hasData && hasNewBase && mode != "victim-written-at-its-own-base":
+									mode = "victim-written-at-the-inserted-line's-address"
+								case hasData && mode == "victim-not-written":
+									mode = "victim-written-at-unknown-address"
 								}
 								return true
 							})
 						}
-						// PushLine reports only the victim's bytes, not its base: it cannot be written back to its own address
-						r.bad("R05.2", site+":"+mode, call.Pos(), "inserting into a full cache displaces the least recently used line; its bytes must be written back to ITS base, but PushLine reports only the bytes and this caller does: %s", mode)
+						r.check(mode == "victim-written-at-its-own-base", "R05.2", site+":victim-written-back", call.Pos(), "inserting into a full cache displaces the least recently used line; its bytes are written back at ITS OWN base (this caller: %s)", mode)
 					} else {
 						// the warning form: the victim's boundary must reach an eviction request
 						used := false
